@@ -755,7 +755,7 @@ pub fn c15(tier: &str, seed: u64) -> Vec<Case> {
                 };
                 inst = inst.with_ip_address(IpAddr::V6(Ipv6Addr::from(a)));
             }
-            for _ in 0..r.below(3) { inst = inst.with_port(8000 + r.below(3) as u16); }
+            for _ in 0..r.below(3) { inst = inst.with_port(*r.pick(&[8000u16, 8001, 8002, 8000, 8001, 0, 65535, 1])); }
             // address and port given together
             if r.chance(1, 4) { inst = inst.with_socket_address(std::net::SocketAddr::new(IpAddr::V4(Ipv4Addr::from(0x0A000000 + r.below(4) as u32)), 8000 + r.below(3) as u16)); }
             {
@@ -844,6 +844,38 @@ pub fn c15(tier: &str, seed: u64) -> Vec<Case> {
                     got
                 })
             };
+            // a channel whose reader has gone away (the application dropped the receiver): the announcements are
+            // cached all the same, in both flavours
+            {
+                let (tx, rx) = std::sync::mpsc::channel::<InstanceInformation>();
+                drop(rx);
+                let mut st4: ResourceRecordManager<'static> = ResourceRecordManager::new();
+                st4.add_authoritative_resource(own_ptr.clone());
+                st4.add_authoritative_resource(own_a.clone());
+                let mut ch = Some(tx);
+                for w in &wires { let p = Packet::parse(w).unwrap(); sync_add_response_to_resources(p, &service, &own, &mut st4, &mut ch); }
+                let found4: Vec<InstanceInformation> = st4.get_domain_resources(&service, DomainResourceFilter::cached()).filter_map(|rs| instance_from_records(&service, rs)).collect();
+                let got4 = sorted(found4.iter().map(|i| inst_text(i, &i.unescaped_instance_name())).collect());
+                let (wires_d, service_d, own_d, own_ptr_d, own_a_d) = (wires.clone(), service.clone(), own.clone(), own_ptr.clone(), own_a.clone());
+                let got5 = {
+                    let rt = tokio::runtime::Builder::new_current_thread().build().unwrap();
+                    rt.block_on(async move {
+                        let (tx, rx) = tokio::sync::mpsc::channel::<InstanceInformation>(1);
+                        drop(rx);
+                        let mut st5: ResourceRecordManager<'static> = ResourceRecordManager::new();
+                        st5.add_authoritative_resource(own_ptr_d);
+                        st5.add_authoritative_resource(own_a_d);
+                        let mut ch = Some(tx);
+                        for w in &wires_d { let p = Packet::parse(w).unwrap(); simple_mdns::verif::async_add_response_to_resources(p, &service_d, &own_d, &mut st5, &mut ch).await; }
+                        let f: Vec<InstanceInformation> = st5.get_domain_resources(&service_d, DomainResourceFilter::cached()).filter_map(|rs| instance_from_records(&service_d, rs)).collect();
+                        sorted(f.iter().map(|i| inst_text(i, &i.unescaped_instance_name())).collect())
+                    })
+                };
+                let mut cd = Case::oracle_only().tag("closed-channel");
+                if got4 != got { cd = cd.fail("closed-channel-differs", format!("with a closed on_discovery channel the sync flavour knows {} instead of {}", got4, got)); }
+                if got5 != got { cd = cd.fail("closed-channel-differs", format!("with a closed on_discovery channel the tokio flavour knows {} instead of {}", got5, got)); }
+                v.push(cd);
+            }
             let mut cc = Case::oracle_only().tag("on-discovery-channel");
             if sync_reports != async_reports { cc = cc.fail("reports-differ", format!("sync flavour reported {} instance(s), the tokio flavour with a slow reader {}", sync_reports.len(), async_reports.len())); }
             for (n, i) in &advertised { let t = inst_text(i, n); if !has_empty_key && !sync_reports.contains(&t) { cc = cc.fail("not-reported", format!("advertised instance {} was never reported on the channel", n)); } }
